@@ -1266,6 +1266,17 @@ class FileBuilder:
         except OSError as exception:
             return_value = None
             exception_type_str = exception.__class__.__name__
+            if (name == 'get_size' and
+                    exception_type_str == 'FileNotFoundError' and
+                    operation.exception_type_str is None and
+                    created_files is not None and
+                    created_files.has_norm_cased_dir(
+                        os.path.normcase(operation.args[0])) and
+                    not os.path.lexists(operation.args[0])):
+                # The directory only exists by virtue of created_files: it
+                # would be created by executing the operation, as it was when
+                # we recorded its size, so there is nothing to measure yet
+                return True
         return (
             JsonUtil.is_equal(return_value, operation.return_value) and
             exception_type_str == operation.exception_type_str)
